@@ -68,6 +68,7 @@ def explore(ctx, res, replay=None):
         srcs.append((v['files'], v['main'], {}))
     else:
         srcs += special_sources()
+        srcs += [(f, m, {}) for f, m in gen_prog.extra_programs()]
         n = (400 if quick else 8000)
         for k in range(n):
             o = gen_prog.Opts(canonical=(rng.random() < 0.3), user_macros=0.25 if k % 3 == 0 else 0.0,
